@@ -56,7 +56,9 @@ def tag_of(a, g):
   if a == "PacketOut":
     return "PacketOut-badbuf" if g["src"] in ("stale", "bogus") else "PacketOut-" + g["src"]
   if a == "FlowMod":
-    return "FlowMod-badbuf" if g["buf"] in ("stale", "bogus") else "FlowMod-" + g["cmd"]
+    if g["buf"] in ("stale", "bogus"):
+      return "FlowMod-badbuf"
+    return "FlowMod-addbad-" + g["buf"] if g["cmd"] == "addbad" else "FlowMod-" + g["cmd"]
   if a == "PortMod":
     return "PortMod-" + g["kind"]
   if a == "StatsReq":
@@ -267,7 +269,10 @@ def gen(rnd, st):
       return "PacketOut", dict(xid=x, src="data", slot=0, act=rnd.choice([1, 2, 9, 0, 65000]))
     if c < 0.9:
       st["slots"].discard(occ[0])
-      return "PacketOut", dict(xid=x, src="live", slot=occ[0], act=rnd.choice([1, 2, 0]))
+      act = rnd.choice([1, 2, 0, 65000, 65000, 9])
+      if act in (65000, 9):
+        st["limbo"] = True       # the spec buffers nothing more after a refused action list
+      return "PacketOut", dict(xid=x, src="live", slot=occ[0], act=act)
     if c < 0.95 and free:
       return "PacketOut", dict(xid=x, src="stale", slot=free[0], act=2)
     return "PacketOut", dict(xid=x, src="bogus", slot=st["NB"] + 5, act=2)
@@ -277,12 +282,16 @@ def gen(rnd, st):
       return "FlowMod", dict(xid=x, cmd=rnd.choice(["add", "addov", "mod", "del"]),
                              f=rnd.choice(["f1", "f2"]), buf="none", slot=0)
     if c < 0.85:
-      return "FlowMod", dict(xid=x, cmd=rnd.choice(["delall", "badcmd", "emerg", "emergto"]),
+      return "FlowMod", dict(xid=x, cmd=rnd.choice(["delall", "badcmd", "emerg", "emergto", "emergrem",
+                                                    "addbad"]),
                              f="f1", buf="none", slot=0)
     occ = sorted(st["slots"])
     free = [s for s in range(1, st["NB"] + 1) if s not in st["slots"]]
     if occ and c < 0.95:
       st["slots"].discard(occ[0])
+      if rnd.random() < 0.5:
+        st["limbo"] = True
+        return "FlowMod", dict(xid=x, cmd="addbad", f="f1", buf="live", slot=occ[0])
       return "FlowMod", dict(xid=x, cmd="add", f="f1", buf="live", slot=occ[0])
     if free and c < 0.975:
       return "FlowMod", dict(xid=x, cmd="add", f="f1", buf="stale", slot=free[0])
@@ -319,11 +328,11 @@ def drive(arg):
   from harness.adapters_c13 import Adapter, schema_ok
   rnd = random.Random(seed)
   ad = Adapter(NP=2, NB=1, MaxEntries=2, seed=seed)
-  st = dict(NB=1, slots=set(), down={1: False, 2: False})
+  st = dict(NB=1, slots=set(), down={1: False, 2: False}, limbo=False)
   tr = []
   while len(tr) < n:
-    if rnd.random() < 0.25:
-      up = [p for p in (1, 2) if not st["down"][p]]
+    if rnd.random() < 0.25 and not st["limbo"]:   # (after a refused action list on a buffer
+      up = [p for p in (1, 2) if not st["down"][p]]   #  the spec lets nothing more be buffered)
       if not up:
         continue
       args = dict(xid="-", p=rnd.choice(up), k=rnd.choice(["f1", "f2", "miss"]))
